@@ -25,8 +25,9 @@ for d in sorted(glob.glob('/verif/legal/*/')):
         res.append(s)
     verdict = (m.get('verdict') or '').replace('|', '/')
     aft = ', '.join('%s:%s' % (c, v.get('exit')) for c, v in sorted((m.get('after_correction') or {}).items()))
-    rows.append('| %s | %s | %s | %s | %s |' % (name, title, ', '.join(res), aft, verdict))
-print('| change | what | own check, first run: exit code | after the correction | disposition |')
-print('|---|---|---|---|---|')
+    fin = ', '.join('%s:%s' % (c, v.get('exit')) for c, v in sorted((m.get('final_rerun') or {}).items()))
+    rows.append('| %s | %s | %s | %s | %s | %s |' % (name, title, ', '.join(res), aft, fin, verdict))
+print('| change | what | own check, first run: exit code | after the correction | final harnesses | disposition |')
+print('|---|---|---|---|---|---|')
 print('\n'.join(rows))
 print('\n%d changes, %d check runs, %d exit 0' % (len(rows), tot, quiet), file=sys.stderr)
